@@ -448,3 +448,31 @@ Proof.
   - rewrite eval_EAttr in Hev. apply bind_Raise_inv in Hev as [Hev|[a' [_ Hev]]]; [eauto|exc_leaf].
   - cbn in Hev. exc_leaf.
 Qed.
+
+(* the same for every name that can only resolve to the class of that name and is not the head of a builtin generic:
+   names without a global (eval_names), and names bound by the context *)
+Lemma eval_names_gen : forall c n,
+  (forall v, lookup c n = Ok v -> v = TCls n) -> mem n subscriptable_builtins = false ->
+  forall e v, eval c e = Ok v -> In n (enames e) -> In n (cls_names v).
+Proof.
+  intros c n L S. induction e using texpr_ind'; intros v Hev Hn; cbn [enames] in Hn; try contradiction.
+  - destruct Hn as [Hn|[]]. subst. rewrite eval_EName in Hev. rewrite (L v Hev). cbn. auto.
+  - rewrite eval_ESub in Hev. apply bind_Ok_inv in Hev as [f' [Hf Hev]]. apply bind_Ok_inv in Hev as [s' [Hs Hev]].
+    apply in_app_iff in Hn as [Hn|Hn].
+    + exfalso. specialize (IHe1 _ Hf Hn). unfold subscript in Hev.
+      destruct f'; cbn in IHe1; try contradiction; try discriminate.
+      destruct IHe1 as [E|[]]. subst. rewrite S in Hev. discriminate.
+    + eapply subscript_names; eauto.
+  - rewrite eval_ETuple in Hev. apply bind_Ok_inv in Hev as [l' [Hl Hev]]. inversion Hev; subst. cbn.
+    eapply evals_names; eauto.
+  - rewrite eval_EList in Hev. apply bind_Ok_inv in Hev as [l' [Hl Hev]]. inversion Hev; subst. cbn.
+    eapply evals_names; eauto.
+  - rewrite eval_EOr in Hev. apply bind_Ok_inv in Hev as [a' [Ha Hev]]. apply bind_Ok_inv in Hev as [b' [Hb Hev]].
+    eapply or_ty_names; [eassumption|]. apply in_app_iff in Hn as [Hn|Hn]; [left|right]; eauto.
+  - rewrite eval_EAttr in Hev. apply bind_Ok_inv in Hev as [? [_ Hev]]. discriminate.
+Qed.
+
+Lemma subscriptable_globals_cls : forall n, mem n subscriptable_builtins = true -> globals n = Some (TCls n).
+Proof.
+  intros n M. apply mem_In in M. cbn in M. repeat (destruct M as [E|M]; [subst; reflexivity|]). contradiction.
+Qed.
